@@ -19,7 +19,7 @@ ASSUMPTIONS = c01.ASSUMPTIONS + ["end-to-end tables are observed after the pipel
 
 
 def e2e_tables(ctx):
-    n = ctx.budget(110, 3000)
+    n = ctx.budget(110, 1500)
     cf = CaseFile(ctx, "e2e_tables", HDR, shard=30)
     meta = []
     probs = [(dict(streams=[dict(zone="Z", name="h", t_supply=200.0, t_target=100.0, heat_flow=100.0, dt_cont=10.0, htc=1.0),
@@ -87,7 +87,7 @@ def full_cascade(streams, utilities):
 
 
 def cascade_suite(ctx):
-    n = ctx.budget(250, 8000)
+    n = ctx.budget(250, 4000)
     cases = [(ss, uts) for ss, uts in c01.CORPUS_STAGE]
     cases.append(([dict(zone="Z", name="h", t_supply=200.0, t_target=100.0, heat_flow=100.0, dt_cont=10.0, htc=1.0),
                    dict(zone="Z", name="c", t_supply=50.0, t_target=150.0, heat_flow=150.0, dt_cont=5.0, htc=1.0)], []))   # D4 witness
